@@ -1,4 +1,4 @@
-import Octo.Lemmas.TrigFlat
+import Octo.Lemmas.TrigFires
 import Octo.Model.TriggerGroupBy
 /-!
   The group-by node around the triggers (`Octo.Model.TriggerGroupBy`): whatever the trigger does, the
@@ -248,17 +248,17 @@ variable (wl : WKey → WKey → Bool)
 
 structure Inv (st : NState) : Prop where
   prevWF : PrevWF nk st.prev
-  leafWF : ∀ l ∈ st.trig.leaves, l.wf ∧ l.allKeys (fun k => k.length = nk)
+  leafWF : ∀ l ∈ st.trig.leaves, l.wf ∧ l.allKeys (fun k => k.length = nk) ∧ l.sorted
   dirtyPending : ∀ k, cleanB C st.aggs st.prev k = false → ∀ l ∈ st.trig.leaves, l.pend wl k = true
 
 variable {C nk wl}
 
-theorem polled_len {t : TState} (h : ∀ l ∈ t.leaves, l.wf ∧ l.allKeys (fun k => k.length = nk)) :
+theorem polled_len {t : TState} (h : ∀ l ∈ t.leaves, l.wf ∧ l.allKeys (fun k => k.length = nk) ∧ l.sorted) :
     ∀ k ∈ (t.poll wl).1, k.length = nk := by
   intro k hk
   rw [poll_fst, List.mem_flatMap] at hk
   obtain ⟨l, hl, hkl⟩ := hk
-  exact (Leaf.allKeys_poll l (h l hl).2).2 k hkl
+  exact (Leaf.allKeys_poll l (h l hl).2.1).2 k hkl
 
 /-- `CustomTriggerGroupBy.trigger` keeps the invariant and its output is the change of the sent rows -/
 theorem fire_inv (W : WLaws wl) (st : NState) (curEt : Int) (h : Inv C nk wl st) :
@@ -272,7 +272,7 @@ theorem fire_inv (W : WLaws wl) (st : NState) (curEt : Int) (h : Inv C nk wl st)
   · intro l' hl'
     simp only [fire, poll_snd, List.mem_map] at hl'
     obtain ⟨l, hl, rfl⟩ := hl'
-    exact ⟨Leaf.wf_poll l (h.leafWF l hl).1, (Leaf.allKeys_poll l (h.leafWF l hl).2).1⟩
+    exact ⟨Leaf.wf_poll l (h.leafWF l hl).1, (Leaf.allKeys_poll l (h.leafWF l hl).2.1).1, Leaf.sorted_poll l (h.leafWF l hl).2.2⟩
   · intro k hk l' hl'
     simp only [fire] at hk
     simp only [fire, poll_snd, List.mem_map] at hl'
@@ -345,6 +345,40 @@ theorem find_updAggs_other (r : Rec) (aggs : List (Key × AggItem)) (k' : Key)
 /-- what the node needs of the key expressions: keys of one fixed length -/
 def KeyLen (C : GBConf) (nk : Nat) : Prop := ∀ vals, (C.keyOf vals).length = nk
 
+/-- the state handed to `trigger` after a record -/
+theorem pre_inv_data (W : WLaws wl) (hK : KeyLen C nk) (st : NState) (r : Rec) (h : Inv C nk wl st) :
+    Inv C nk wl ⟨updAggs C r st.aggs, st.prev, st.trig.keyReceived wl (C.keyOf r.vals)⟩ := by
+  refine ⟨h.prevWF, ?_, ?_⟩
+  · intro l' hl'
+    simp only [leaves_keyReceived, List.mem_map] at hl'
+    obtain ⟨l, hl, rfl⟩ := hl'
+    exact ⟨Leaf.wf_keyReceived l _ (h.leafWF l hl).1,
+      Leaf.allKeys_keyReceived l _ (hK r.vals) (h.leafWF l hl).2.1, Leaf.sorted_keyReceived W l _ (h.leafWF l hl).2.2⟩
+  · intro k hk l' hl'
+    simp only [leaves_keyReceived, List.mem_map] at hl'
+    obtain ⟨l, hl, rfl⟩ := hl'
+    simp only [] at hk
+    by_cases hq : keq (C.keyOf r.vals) k = true
+    · exact Leaf.pend_keyReceived_self W l _ k hq
+    · have hq' : keq (C.keyOf r.vals) k = false := by simpa using hq
+      rw [cleanB_congr_aggs C (find_updAggs_other r st.aggs k hq')] at hk
+      exact Leaf.pend_keyReceived_mono W l _ k (h.dirtyPending k hk l hl)
+
+/-- the state handed to `trigger` after a watermark -/
+theorem pre_inv_wm (st : NState) (w : Int) (h : Inv C nk wl st) :
+    Inv C nk wl ⟨st.aggs, st.prev, st.trig.watermarkReceived w⟩ := by
+  refine ⟨h.prevWF, ?_, ?_⟩
+  · intro l' hl'
+    simp only [leaves_watermarkReceived, List.mem_map] at hl'
+    obtain ⟨l, hl, rfl⟩ := hl'
+    exact ⟨Leaf.wf_watermarkReceived l w (h.leafWF l hl).1,
+      Leaf.allKeys_watermarkReceived l w (h.leafWF l hl).2.1, Leaf.sorted_watermarkReceived l w (h.leafWF l hl).2.2⟩
+  · intro k hk l' hl'
+    simp only [leaves_watermarkReceived, List.mem_map] at hl'
+    obtain ⟨l, hl, rfl⟩ := hl'
+    rw [Leaf.pend_watermarkReceived]
+    exact h.dirtyPending k hk l hl
+
 theorem step_inv (W : WLaws wl) (hK : KeyLen C nk) (st : NState) (m : Msg) (h : Inv C nk wl st) :
     Inv C nk wl (gbStep wl C st m).1 ∧
     (∀ row, net (recs (gbStep wl C st m).2) row =
@@ -352,39 +386,11 @@ theorem step_inv (W : WLaws wl) (hK : KeyLen C nk) (st : NState) (m : Msg) (h : 
   cases m with
   | data r =>
     simp only [gbStep]
-    have hpre : Inv C nk wl ⟨updAggs C r st.aggs, st.prev, st.trig.keyReceived wl (C.keyOf r.vals)⟩ := by
-      refine ⟨h.prevWF, ?_, ?_⟩
-      · intro l' hl'
-        simp only [leaves_keyReceived, List.mem_map] at hl'
-        obtain ⟨l, hl, rfl⟩ := hl'
-        exact ⟨Leaf.wf_keyReceived l _ (h.leafWF l hl).1,
-          Leaf.allKeys_keyReceived l _ (hK r.vals) (h.leafWF l hl).2⟩
-      · intro k hk l' hl'
-        simp only [leaves_keyReceived, List.mem_map] at hl'
-        obtain ⟨l, hl, rfl⟩ := hl'
-        simp only [] at hk
-        by_cases hq : keq (C.keyOf r.vals) k = true
-        · exact Leaf.pend_keyReceived_self W l _ k hq
-        · have hq' : keq (C.keyOf r.vals) k = false := by simpa using hq
-          rw [cleanB_congr_aggs C (find_updAggs_other r st.aggs k hq')] at hk
-          exact Leaf.pend_keyReceived_mono W l _ k (h.dirtyPending k hk l hl)
-    have := fire_inv W _ (etNs r.et) hpre
+    have := fire_inv W _ (etNs r.et) (pre_inv_data W hK st r h)
     exact ⟨this.1, this.2.1⟩
   | wm w =>
     simp only [gbStep]
-    have hpre : Inv C nk wl ⟨st.aggs, st.prev, st.trig.watermarkReceived w⟩ := by
-      refine ⟨h.prevWF, ?_, ?_⟩
-      · intro l' hl'
-        simp only [leaves_watermarkReceived, List.mem_map] at hl'
-        obtain ⟨l, hl, rfl⟩ := hl'
-        exact ⟨Leaf.wf_watermarkReceived l w (h.leafWF l hl).1,
-          Leaf.allKeys_watermarkReceived l w (h.leafWF l hl).2⟩
-      · intro k hk l' hl'
-        simp only [leaves_watermarkReceived, List.mem_map] at hl'
-        obtain ⟨l, hl, rfl⟩ := hl'
-        rw [Leaf.pend_watermarkReceived]
-        exact h.dirtyPending k hk l hl
-    have := fire_inv W _ w hpre
+    have := fire_inv W _ w (pre_inv_wm st w h)
     refine ⟨this.1, fun row => ?_⟩
     rw [recs_append, net_append, this.2.1 row]
     simp [recs, net]
@@ -417,7 +423,7 @@ theorem init_inv : Inv C nk wl (gbInit C) := by
   · intro e he; simp [gbInit] at he
   · intro l hl
     have := init_leaves C.cfg l hl
-    exact ⟨Leaf.wf_init l this, Leaf.allKeys_init l this⟩
+    exact ⟨Leaf.wf_init l this, Leaf.allKeys_init l this, Leaf.sorted_init l this⟩
   · intro k hk
     simp [gbInit, cleanB, curRow, find] at hk
 
@@ -452,7 +458,7 @@ theorem out_eq_table (W : WLaws wl) (hK : KeyLen C nk) (hlive : C.cfg.live = tru
     · intro l' hl'
       simp only [leaves_endOfStream, List.mem_map] at hl'
       obtain ⟨l, hl, rfl⟩ := hl'
-      exact ⟨Leaf.wf_endOfStream l (hf.1.leafWF l hl).1, Leaf.allKeys_endOfStream l (hf.1.leafWF l hl).2⟩
+      exact ⟨Leaf.wf_endOfStream l (hf.1.leafWF l hl).1, Leaf.allKeys_endOfStream l (hf.1.leafWF l hl).2.1, Leaf.sorted_endOfStream l (hf.1.leafWF l hl).2.2⟩
     · intro k hk l' hl'
       simp only [leaves_endOfStream, List.mem_map] at hl'
       obtain ⟨l, hl, rfl⟩ := hl'
